@@ -37,7 +37,7 @@ ASSUMPTIONS = [
 EXPECTED_PROBES = ["ttc.replica_compared", "ttc.untouched_member_checked", "xml.before_after_save_compared", "xml.dump_vs_reference_compared", "hashsweep.runs_compared", "order.pairs", "pipe.ok", "pipe.build", "pipe.merge", "pipe.instance", "pipe.fea", "pipe.feagen", "pipe.featvars", "pipe.cffconv", "pipe.ttxm", "pipe.subset", "pipe.ttx", "save.checked", "op.savexml", "op.failsave.compile", "op.failsave.dest", "lazy.True", "lazy.None", "lazy.False", "edit.reorder", "edit.subset", "edit.scale", "edit.instantiate"]
 
 TIERS = {
-    "quick": {"budget_s": 900, "determinism_sample": 16, "n": {"hist": 2700, "hist_fail": 1000, "hist_ensure": 700, "second_save": 900, "clock": 400, "ttc": 300, "pipe": 500, "order": 40, "hashsweep": 16}, "minimise_s": 60, "max_minimise": 3},
+    "quick": {"budget_s": 900, "determinism_sample": 40, "n": {"hist": 2700, "hist_fail": 1000, "hist_ensure": 700, "second_save": 900, "clock": 400, "ttc": 300, "pipe": 500, "order": 40, "hashsweep": 16}, "minimise_s": 60, "max_minimise": 3},
     "thorough": {"budget_s": 5400, "determinism_sample": 200, "n": {"hist": 16000, "hist_fail": 5000, "hist_ensure": 4000, "second_save": 1400, "clock": 1500, "ttc": 2500, "pipe": 6000, "order": 500, "hashsweep": 320}, "minimise_s": 180, "max_minimise": 6},
 }
 
@@ -1477,6 +1477,17 @@ def exec_ttc(ctx, h, src, scratch):
     if res.get("violation"):
         _match_known(ctx, h, res)
     return res
+
+
+def from_selftest_mismatch(ctx, key, prefix):
+    """The kernel's determinism self-test found that run `key` gave another digest in a fresh interpreter
+    (under another hash seed) than in its pool worker. For this property that is not a harness matter but
+    the thing under test: the same run under two hash seeds, and alone against after the runs that
+    preceded it in its worker (the recorded schedule), as ordinary histories of the hashsweep / order kind."""
+    r = ctx.rng("selftest-mismatch", key[1])
+    for _ in range(2):
+        yield {"kind": "hashsweep", "ops": [list(key)], "seeds": [0, r.randrange(1, 1 << 31)], "font": None}
+    yield {"kind": "order", "target": list(key), "ops": [list(k) for k in prefix][-150:], "font": None, "hashseed": r.randrange(1, 1 << 31)}
 
 
 # ---------------------------------------------------------------------------
